@@ -171,7 +171,7 @@ def run(chk):
         chk.violation(str(e), "harness for C03 does not build against the current source", no_input=True, suffix="txt")
         exe = None
     if exe is not None and driver_ok:
-        fam = diffrun.Family("condvar", exe)
+        fam = diffrun.Family("condvar", exe, timeout=10)   # a scripted call never blocks: 10 s means a hang
         cases = pv.load_corpus("C03")
         ex = list(exhaustive())
         chk.cov["exhaustive_small_scope"] = {"return_codes": RCS, "cases": len(ex),
@@ -230,7 +230,7 @@ def replay(chk, path):
     if ops:
         pv.lake_build(["pvdriver"])
         exe = pv.build_harness("condvar", cfg, ["condvar.c"], repo_files=FILES, san="asan", link=["-Wl,--wrap=" + w for w in WRAPPED])
-        r = diffrun.judge(diffrun.Family("condvar", exe), ops)
+        r = diffrun.judge(diffrun.Family("condvar", exe, timeout=10), ops)
         print(r or "all answers agree")
         rc |= 1 if r else 0
     return rc
